@@ -287,6 +287,7 @@ def big_graphs(ck, graphs, e2e_results=None):
             spec = {frozenset(nm[v] for v in c): sev for c, sev in spec_rows}
             replay = {"kind": g["kind"], "modules": nm, "edges": [[a, b] for a, b in g["edges"]],
                       "spec_cycles": [sorted(c) for c in spec]}
+            replay.update({key: g[key] for key in ("dir", "layout", "files") if key in g})
             if any(len(c) >= 2 for c, _ in spec_rows):
                 ck.stats["big_nontrivial"] += 1
             ck.stats["max_cycle"] = max([ck.stats["max_cycle"]] + [len(c) for c, _ in spec_rows])
@@ -620,6 +621,383 @@ def prefix_named_projects(ck, rng, count):
     return graphs
 
 
+# ----------------------------------------------------------------------------------------
+# end to end: module NAMES — the graph must not depend on what a project module is called
+# ----------------------------------------------------------------------------------------
+# Python's own importer, without executing anything: the finders of a fresh interpreter (built-in, frozen, then the path
+# finder with the project root first on sys.path, the way `python root/script.py` sets it up) decide which file a dotted name
+# denotes; the statements come from `ast`.  Prints the modules Python can import from the project and the imports between them.
+NAME_ORACLE = r'''
+import sys, os, ast, json
+import importlib.machinery as M
+root = os.path.realpath(sys.argv[1])
+search = [root] + [p for p in sys.path if p]
+
+def find(name, path):
+    if path is None:
+        for f in (M.BuiltinImporter, M.FrozenImporter):
+            s = f.find_spec(name)
+            if s:
+                return s
+        return M.PathFinder.find_spec(name, search)
+    return M.PathFinder.find_spec(name, path)
+
+def origin(dotted):
+    """the project file Python loads for `import dotted`, None if the name denotes nothing in the project"""
+    parts, path, spec = dotted.split("."), None, None
+    for i in range(len(parts)):
+        spec = find(".".join(parts[:i + 1]), path)
+        if spec is None:
+            return None
+        path = spec.submodule_search_locations
+        if path is None and i < len(parts) - 1:
+            return None
+    o = spec.origin
+    if not o or o in ("built-in", "frozen"):
+        return None
+    o = os.path.realpath(o)
+    return o if o.startswith(root + os.sep) else None
+
+files = {}
+for dp, dns, fns in os.walk(root):
+    dns[:] = sorted(d for d in dns if not d.startswith("."))
+    for fn in sorted(fns):
+        if fn.endswith(".py"):
+            full = os.path.realpath(os.path.join(dp, fn))
+            rel = os.path.relpath(full, root)[:-3].split(os.sep)
+            pkg = rel[-1] == "__init__"
+            files[full] = (".".join(rel[:-1] if pkg else rel), pkg)
+live = {f: nm for f, nm in files.items() if nm[0] and origin(nm[0]) == f}
+dead = sorted(os.path.relpath(f, root) for f in files if f not in live)
+trees = {f: ast.parse(open(f).read()) for f in live}
+
+def bound(f):
+    """names the module's own top-level code binds"""
+    out = set()
+    for s in trees[f].body:
+        if isinstance(s, ast.Assign):
+            out |= {t.id for t in s.targets if isinstance(t, ast.Name)}
+        elif isinstance(s, (ast.FunctionDef, ast.ClassDef)):
+            out.add(s.name)
+        elif isinstance(s, (ast.Import, ast.ImportFrom)):
+            out |= {(a.asname or a.name).split(".")[0] for a in s.names}
+    return out
+
+edges = set()
+for f, (name, pkg) in live.items():
+    for s in ast.walk(trees[f]):
+        targets = []
+        if isinstance(s, ast.Import):
+            targets = [a.name for a in s.names]
+        elif isinstance(s, ast.ImportFrom):
+            base = s.module or ""
+            if s.level:
+                here = name.split(".") if pkg else name.split(".")[:-1]
+                if s.level - 1 > len(here) or not here:
+                    continue
+                here = here[:len(here) - (s.level - 1)]
+                base = ".".join(here + ([s.module] if s.module else []))
+            bf = origin(base)
+            for a in s.names:
+                if a.name != "*" and not (bf in live and a.name in bound(bf)) and origin(base + "." + a.name):
+                    targets.append(base + "." + a.name)
+                else:
+                    targets.append(base)
+        for t in targets:
+            o = origin(t)
+            if o in live:
+                edges.add((name, live[o][0]))
+json.dump({"modules": sorted(nm for nm, _ in live.values()), "dead": dead, "edges": sorted(edges)}, sys.stdout)
+'''
+
+THIRD_PARTY_NAMES = ["numpy", "requests", "yaml", "django", "flask", "six", "attr", "pytest", "setuptools", "pkg_resources",
+                     "typing_extensions", "click"]
+UNDERSCORE_NAMES = ["_private", "__about__", "__version__", "_", "__", "_compat", "__helpers__", "_json", "_1", "__x", "x__", "_a_"]
+ORDINARY_NAMES = ["app", "store", "views", "models", "service", "handlers", "tasks", "schema"]
+GENUINE_STDLIB = ["import os", "import sys", "from collections import OrderedDict", "import os.path", "from typing import List",
+                  "import json.decoder", "from email import message", "import xml.dom.minidom as md", "import logging.handlers"]
+
+
+def read_stdlib_table():
+    """the names isStandardLibrary (internal/analyzer/module_analyzer.go) takes for the standard library, from the source"""
+    src = open(os.path.join(lib.REPO, "internal", "analyzer", "module_analyzer.go")).read()
+    m = re.search(r"func \(ma \*ModuleAnalyzer\) isStandardLibrary.*?map\[string\]bool\{(.*?)\}", src, re.S)
+    return re.findall(r'"([A-Za-z0-9_]+)"\s*:\s*true', m.group(1)) if m else []
+
+
+def python_never_loads(name):
+    """a top-level project module of that name can never be imported: the built-in and the frozen importer come before sys.path"""
+    import sys
+    import importlib.machinery as M
+    return name in sys.builtin_module_names or M.FrozenImporter.find_spec(name) is not None or name == "__main__"
+
+
+def name_oracle(d):
+    import subprocess
+    import sys
+    import json
+    p = subprocess.run([sys.executable, "-I", "-S", "-c", NAME_ORACLE, d], stdout=subprocess.PIPE, stderr=subprocess.PIPE, text=True,
+                       timeout=120, cwd="/")
+    if p.returncode != 0:
+        raise RuntimeError("python importer oracle failed: " + p.stderr[-500:])
+    return json.loads(p.stdout)
+
+
+def import_forms(A, a_pkg, B):
+    """every way module A (path tuple; a_pkg: it is an __init__.py) can import module B so that Python's graph has exactly the
+    import A -> B: (form name, statement).  An __init__.py uses `import B` only (a from-import there re-exports a name, C12 F34)."""
+    dotted = ".".join(B)
+    forms = [("import", "import %s" % dotted), ("import-as", "import %s as alias_%d" % (dotted, len(dotted)))]
+    if a_pkg:
+        return forms[:1]
+    forms.append(("from-value", "from %s import value" % dotted))
+    if len(B) >= 2:
+        forms.append(("from-parent", "from %s import %s" % (".".join(B[:-1]), B[-1])))
+    here = A[:-1]
+    common = 0
+    while common < len(here) and common < len(B) and here[common] == B[common]:
+        common += 1
+    if common >= 1:
+        dots = "." * (len(here) - common + 1)
+        rest = B[common:]
+        if not rest:
+            forms.append(("relative-package-value", "from %s import value" % dots))
+        else:
+            forms.append(("relative-value", "from %s%s import value" % (dots, ".".join(rest))))
+            forms.append(("relative-module", "from %s%s import %s" % (dots, ".".join(rest[:-1]), rest[-1])))
+    return forms
+
+
+def names_layouts(rng, stdlib, count):
+    """Layouts [(family, [(path, is_pkg, special)], shadowed files)] — `special` marks the modules whose NAME is the point.
+    Component names are unique within a layout (no module of one directory is called like a module of the directory above or
+    of the root: that is the implicit relative import of C12 F31).  The stdlib table is dealt out over the stdlib families so
+    that every name of it (that Python can load from a project at all) is a project module in every run."""
+    table = [s for s in stdlib if not python_never_loads(s)]
+    rng.shuffle(table)
+    deal = {"i": 0}
+
+    def std(k):
+        out = [table[(deal["i"] + j) % len(table)] for j in range(k)]
+        deal["i"] += k
+        return out
+    ordinary = lambda k: rng.sample(ORDINARY_NAMES, k)
+    layouts = []
+    n_std_top = max(2, -(-len(table) // 8))          # enough projects of the first family to go through the whole table
+    fams = ["stdlib-top"] * n_std_top + ["stdlib-nested", "stdlib-affix", "third-party", "underscore", "file-next-to-package"]
+    while len(fams) < count:
+        fams.append(rng.choice(fams[:]))
+    for fam in fams:
+        mods, shadow = [], []
+        o = ordinary(4)
+        if fam == "stdlib-top":
+            s = std(8)
+            # plain modules, packages with an ordinary submodule, a package with a stdlib-named submodule
+            mods = [((s[0],), False, True), ((s[1],), False, True), ((s[2],), False, True), ((s[3],), False, True), ((s[4],), False, True),
+                    ((s[5],), True, True), ((s[5], "render"), False, True), ((s[5], "model"), False, True), ((s[6],), True, True),
+                    ((s[6], "inner"), True, True), ((s[6], "inner", "leaf"), False, True), ((s[6], "outer"), False, True),
+                    ((s[7],), True, True), ((s[7], "codec"), False, True),
+                    ((o[0],), False, False), ((o[1],), False, False), ((o[2],), True, False), ((o[2], "util"), False, False)]
+        elif fam == "stdlib-nested":
+            s = std(7)
+            mods = [((o[0],), True, False), ((o[0], s[0]), False, True), ((o[0], s[1]), False, True), ((o[0], s[2]), True, True),
+                    ((o[0], s[2], "part"), False, True), ((o[0], "sub"), True, False), ((o[0], "sub", s[3]), False, True),
+                    ((o[0], "sub", s[5]), False, True), ((o[0], s[6]), False, True),
+                    ((o[0], "sub", "plain"), False, False), ((o[0], "peer"), False, False), ((o[1],), False, False),
+                    ((o[2],), False, False), ((s[4],), False, True)]
+        elif fam == "stdlib-affix":
+            s = std(3)
+            for x in s:
+                tails = rng.sample(["x", "_utils", "2", "s", "lib", "_"], 2)
+                mods += [((x,), False, True), ((x + tails[0],), False, True), ((x + tails[1],), True, True),
+                         ((x + tails[1], "part"), False, True), ((rng.choice(["my", "py", "_", "a"]) + x,), False, True)]
+                if len(x) > 2 and not python_never_loads(x[:-1]):
+                    mods.append(((x[:-1],), False, True))
+                mods.append(((x.upper() if rng.random() < 0.5 else x.capitalize(),), False, True))
+            mods += [((o[0],), False, False), ((o[1],), False, False)]
+        elif fam == "third-party":
+            t = rng.sample(THIRD_PARTY_NAMES, 6)
+            mods = [((t[0],), False, True), ((t[1],), False, True), ((t[2],), True, True), ((t[2], "core"), False, True),
+                    ((t[3],), True, True), ((t[3], t[4]), False, True), ((o[0],), True, False), ((o[0], t[5]), False, True),
+                    ((o[1],), False, False), ((o[2],), False, False)]
+        elif fam == "underscore":
+            u = rng.sample(UNDERSCORE_NAMES, 7)
+            mods = [((u[0],), False, True), ((u[1],), False, True), ((u[2],), True, True), ((u[2], "impl"), False, True),
+                    ((o[0],), True, False), ((o[0], u[3]), False, True), ((o[0], "__main__"), False, True), ((o[0], u[4]), True, True),
+                    ((o[0], u[4], u[5]), False, True), ((u[6],), False, True), ((o[1],), False, False), ((o[2],), False, False)]
+        else:
+            # m.py next to m/__init__.py: Python loads the package, the file is never imported (its imports count for nothing)
+            s = std(2)
+            a, b = s[0], o[3]
+            mods = [((a,), True, True), ((a, "part"), False, True), ((b,), True, True), ((b, "part"), False, True),
+                    ((o[0],), True, False), ((o[0], "dup"), True, True), ((o[0], "dup", "leaf"), False, True),
+                    ((o[1],), False, False), ((o[2],), False, False), ((s[1],), False, True)]
+            shadow = [(a,), (b,), (o[0], "dup")]
+        seen, keep = set(), []
+        for p, is_pkg, sp in mods:                    # a derived name Python cannot load from a project (_io, _functools ..) or a repeat
+            if p in seen or python_never_loads(p[0]) or (len(p) > 1 and p[:-1] not in seen):
+                continue
+            seen.add(p)
+            keep.append((p, is_pkg, sp))
+        layouts.append((fam, keep, [p for p in shadow if p in seen]))
+    return layouts
+
+
+def component_of(n, edges, v):
+    """the strongly connected component of v, by reachability in both directions"""
+    def reach(pairs):
+        seen, todo = {v}, [v]
+        while todo:
+            x = todo.pop()
+            for a, b in pairs:
+                if a == x and b not in seen:
+                    seen.add(b)
+                    todo.append(b)
+        return seen
+    return reach(edges) & reach([(b, a) for a, b in edges])
+
+
+def names_plan(rng, mods, big):
+    """Imports (a, b): the modules are dealt into rings a0 -> a1 -> .. -> a0, every ring goes through a specially named module
+    and every import of a ring is a bridge of its component (losing a single one takes modules out of the cycle); acyclic
+    imports between the rings and the remaining modules; no import from an __init__.py to a module below it (C12 F32)."""
+    n = len(mods)
+
+    def below(a, b):
+        return mods[a][1] and a != b and mods[b][0][:len(mods[a][0])] == mods[a][0]
+    special = [i for i in range(n) if mods[i][2]]
+    plain = [i for i in range(n) if not mods[i][2]]
+    rng.shuffle(special)
+    rng.shuffle(plain)
+    if rng.random() < 0.6:                            # rings inside one top-level package: its modules can import each other relatively
+        key = {t: rng.random() for t in {mods[i][0][0] for i in special}}
+        special.sort(key=lambda i: (key[mods[i][0][0]], rng.random()))
+    rings = []
+    while special:
+        k = min(len(special), rng.choice([1, 1, 2, 2, 3]))
+        ring = [special.pop() for _ in range(k)]
+        while plain and len(ring) < 2 or (plain and rng.random() < 0.3):
+            ring.append(plain.pop())
+        if len(ring) < 2:
+            if rings:
+                rings[-1] += ring
+            continue
+        rings.append(ring)
+    if big and len(rings) >= 3:                       # one component of >= 6 modules: join rings into one ring
+        while len(rings) >= 2 and len(rings[0]) < 6:
+            rings[0] += rings.pop()
+    edges = []
+    for ring in rings:
+        for _ in range(20):                           # an order in which no __init__ imports a module below it
+            rng.shuffle(ring)
+            if not any(below(ring[i], ring[(i + 1) % len(ring)]) for i in range(len(ring))):
+                break
+        edges += [(ring[i], ring[(i + 1) % len(ring)]) for i in range(len(ring))]
+    groups = rings + [[p] for p in plain]
+    rng.shuffle(groups)
+    for _ in range(rng.randint(2, 6)):
+        i, j = sorted(rng.sample(range(len(groups)), 2)) if len(groups) >= 2 else (0, 0)
+        if i != j:
+            edges.append((rng.choice(groups[i]), rng.choice(groups[j])))
+    edges = [(a, b) for a, b in edges if not below(a, b)]
+    # a specially named module that ended up on no cycle (a ring of a package and modules below it only) gets a cycle of two
+    # with a module that lies neither below nor above it
+    for i in range(n):
+        if mods[i][2] and len(component_of(n, edges, i)) < 2:
+            cand = [j for j in range(n) if j != i and not below(i, j) and not below(j, i)]
+            if cand:
+                j = rng.choice([c for c in cand if not mods[c][2]] or cand)
+                edges += [(i, j), (j, i)]
+    return edges, rings
+
+
+def named_module_projects(ck, rng, count):
+    """Projects whose modules are called like standard-library modules (every name of the analyser's own table), like names that
+    extend / shorten / re-case these, like well-known third-party distributions, with leading / trailing underscores and
+    dunders, and packages next to a file of the same name — at the top level, as packages, below an ordinary package.  Every
+    such module lies on a cycle; each import is written in a form rotated over all forms Python offers for it (import, import
+    as, from M import value, from P import m, relative with one or more dots).  The expected graph is what Python's finders
+    and `ast` make of the files on disk (NAME_ORACLE), which must also be the generator's own import list; its strongly
+    connected components (Coq specification, big_graphs) decide cycles, counts, sizes, severities and the `check` exit codes.
+    Each project runs with the default options and with include_stdlib = true in .pyscn.toml."""
+    graphs = []
+    stdlib = read_stdlib_table()
+    if len(stdlib) < 10:
+        ck.broken_ties.append("e2e names: cannot read the standard-library table of isStandardLibrary (%d names)" % len(stdlib))
+        return graphs
+    st = ck.stats.setdefault("names", {"forms": {}, "families": {}, "stdlib_names_used": set(), "special_in_cycle": 0})
+    rot = rng.randrange(100)
+    for k, (fam, mods, shadow) in enumerate(names_layouts(rng, stdlib, count)):
+        names = [".".join(p) for p, _, _ in mods]
+        n = len(names)
+        edges, rings = names_plan(rng, mods, big=(k % 4 == 1))
+        d = lib.fresh_dir("c11_e2e_names_%d" % k)
+        # the marker file that makes the directory the project root (without one the module names get a prefix: C12 F64)
+        files = {["pyproject.toml", "requirements.txt", "setup.cfg"][k % 3]: "[project]\nname = \"demo\"\n" if k % 3 == 0 else ""}
+        for i, (p, is_pkg, _) in enumerate(mods):
+            lines = []
+            if (i + k) % 4 == 0:
+                # an import of the real standard library (of a name that is not a module of this project) / of something unknown
+                tops = {q[0] for q, _, _ in mods}
+                real = [t for t in GENUINE_STDLIB if t.split()[1].split(".")[0] not in tops and (t.startswith("import ") or not is_pkg)]
+                lines.append(real[(i + k + rot) % len(real)] if (i + k) % 8 and real else "import extlib%d" % i)
+            for j, (a, b) in enumerate(edges):
+                if a != i:
+                    continue
+                forms = import_forms(p, is_pkg, mods[b][0])
+                rel_forms = [f for f in forms if f[0].startswith("relative")]
+                if rel_forms and (rot + j) % 3:       # two of three imports inside a package are relative
+                    forms = rel_forms
+                form, text = forms[(rot + j + k) % len(forms)]
+                st["forms"][form] = st["forms"].get(form, 0) + 1
+                lines.append(text)
+            lines.append("value = %d" % i)
+            rel = os.path.join(*p, "__init__.py") if is_pkg else os.path.join(*p[:-1], p[-1] + ".py")
+            files[rel] = "\n".join(lines) + "\n"
+        for j, p in enumerate(shadow):
+            # the dead file imports modules that import the package: counted, it would close a cycle of its own
+            importers = [names[a] for a, b in edges if mods[b][0] == p] + [names[(j + 1) % n]]
+            files[os.path.join(*p[:-1], p[-1] + ".py")] = "".join("import %s\n" % m for m in importers) + "value = -1\n"
+        for rel, text in files.items():
+            os.makedirs(os.path.dirname(os.path.join(d, rel)), exist_ok=True)
+            with open(os.path.join(d, rel), "w") as f:
+                f.write(text)
+        try:
+            orc = name_oracle(d)
+        except Exception as e:
+            ck.broken_ties.append("e2e names: %s" % str(e)[-400:])
+            continue
+        want_edges = sorted({(names[a], names[b]) for a, b in edges})
+        if orc["modules"] != sorted(names) or [tuple(e) for e in orc["edges"]] != want_edges or \
+                orc["dead"] != sorted(os.path.join(*p[:-1], p[-1] + ".py") for p in shadow):
+            ck.broken_ties.append("e2e names (%s): Python's importer reads the generated files differently from the generator: modules %s "
+                                  "dead %s imports %s, generator %s %s" % (fam, orc["modules"], orc["dead"], orc["edges"], names, want_edges))
+            continue
+        idx = {m: i for i, m in enumerate(names)}
+        oedges = [(idx[a], idx[b]) for a, b in orc["edges"]]
+        st["special_in_cycle"] += sum(1 for i in range(n) if mods[i][2] and len(component_of(n, oedges, i)) >= 2)
+        st["special_modules"] = st.get("special_modules", 0) + sum(1 for m in mods if m[2])
+        st["families"][fam] = st["families"].get(fam, 0) + 1
+        st["stdlib_names_used"].update(c for p, _, sp in mods if sp for c in p if c in stdlib)
+        for variant in ("default", "include_stdlib"):
+            dv = d
+            if variant == "include_stdlib":
+                dv = lib.fresh_dir("c11_e2e_names_%d_std" % k)
+                for rel, text in files.items():
+                    os.makedirs(os.path.dirname(os.path.join(dv, rel)), exist_ok=True)
+                    with open(os.path.join(dv, rel), "w") as f:
+                        f.write(text)
+                with open(os.path.join(dv, ".pyscn.toml"), "w") as f:
+                    f.write("[dependencies]\ninclude_stdlib = true\n")
+                files = dict(files, **{".pyscn.toml": "[dependencies]\ninclude_stdlib = true\n"})
+            # default options: also --max-cycles around the number of cycles and --allow-circular-deps (k a multiple of 3)
+            g = cli_project(ck, dv, n, oedges, names, 3 * (k + 1) if variant == "default" else 3 * k + 4,
+                            {"layout": "module names: %s, %s" % (fam, variant), "files": files})
+            if g:
+                graphs.append(g)
+    return graphs
+
+
 def namespace_cycle(ck):
     """cycles between modules of directories without __init__.py (PEP 420), imported with `from nsdir import m`: `pyscn analyze`
     and `pyscn check --select deps` (which builds its graph with include_third_party = false) must list the same cycles
@@ -720,11 +1098,17 @@ def main(tier):
     # ---- part C: command line --------------------------------------------------------------
     e2e = e2e_projects(ck, rng, 24 if thorough else 8)
     pfx = prefix_named_projects(ck, rng, 16 if thorough else 5)
-    graphs += e2e + pfx
+    nam = named_module_projects(ck, rng, 27 if thorough else 9)
+    graphs += e2e + pfx + nam
     namespace_cycle(ck)
     lib.log("C11: cli projects done at %.1fs" % (__import__("time").time() - ck.t0))
     n_eval += big_graphs(ck, graphs)
-    dist.update({"boundary_graphs": len(boundary_graphs()), "random_graphs_upto_60": n_big, "cli_projects": len(e2e), "cli_projects_prefix_related_names": len(pfx)})
+    dist.update({"boundary_graphs": len(boundary_graphs()), "random_graphs_upto_60": n_big, "cli_projects": len(e2e), "cli_projects_prefix_related_names": len(pfx),
+                 "cli_runs_special_module_names": len(nam)})
+    nst = ck.stats.get("names") or {"forms": {}, "families": {}, "stdlib_names_used": set(), "special_in_cycle": 0}
+    dist.update({"special_names_families": nst["families"], "special_names_import_forms": nst["forms"],
+                 "stdlib_table_names_used_as_project_modules": len(nst["stdlib_names_used"]),
+                 "specially_named_modules_on_a_cycle": nst["special_in_cycle"], "specially_named_modules": nst.get("special_modules", 0)})
 
     ck.samples = [{"n": 3, "mask": 106, "edges": mask_edges(3, 106)},
                   {"modules": graphs[0]["n"], "edges": graphs[0]["edges"][:12]},
@@ -742,7 +1126,15 @@ def main(tier):
                 "submodule (package next to prefix-named modules and packages, also one level down): for every such pair the imports in both "
                 "directions, from __init__ files and ordinary modules, arranged so that each is a bridge of its cycle, then rings "
                 "through a related pair and planted graphs with all related imports — cycle set, counts, `check` lines and exit codes "
-                "against the components of the graph the import statements define). "
+                "against the components of the graph the import statements define; projects whose modules are NAMED like "
+                "standard-library modules (every name of isStandardLibrary's table that Python can load from a project, read from the "
+                "source), like these names extended / shortened / re-cased, like third-party distributions, with underscores and dunders "
+                "(pkg.__main__ too), and packages next to a file of the same name (the file is dead) — as top-level modules, as packages, "
+                "below an ordinary package; every such module on a ring whose imports are all bridges, the import forms rotated over "
+                "import / import as / from M import value / from P import m / relative with one or more dots; default options and "
+                "include_stdlib = true; the expected graph is what Python's own finders and ast read from the files (must equal the "
+                "generator's import list), its components decide cycles, TotalCycles, TotalModulesInCycles, sizes, severities, "
+                "the `check` lines and the --max-cycles exit codes). "
                 "distinct_nontrivial = graphs with at least one cycle",
         "input_distribution": dict(dist, distinct_small_partitions=len(ck.stats["distinct_codes"]), largest_cycle_seen=ck.stats["max_cycle"],
                                    severities_seen=sorted(ck.stats["sev_seen"])),
